@@ -246,6 +246,13 @@ func TestC06(t *testing.T) {
 		var out churnOutcome
 		runChurn(r, plan, &out)
 		rounds, conv := r.settle(80, false, nil, true)
+		if n := r.net.Timeouts.Load(); n > 0 {
+			// a caller gave up on a call after the 10 s transport timer: a lost response is a
+			// fault (C07), and a lock whose grant was never received is never released
+			rec.Add("rpc_timeouts", n)
+			rec.Inconclusive("rpc-timeout-fired-during-churn")
+			return
+		}
 
 		evs := r.net.Events()
 		locks, refusals, badRefusals := lockEvents(evs)
